@@ -414,14 +414,6 @@ func (a *muxAnalysis) oracleC01() {
 				return
 			}
 		}
-		// parts decode to the same run as the segments
-		if cfg.vname == "ll" {
-			sd, pd := a.segDec[ts.id], a.partDec[ts.id]
-			if len(sd) > 0 && len(pd) > 0 && sd[0].u.idx == pd[0].u.idx && pd[len(pd)-1].u.idx < sd[len(sd)-1].u.idx {
-				a.fail("contiguity", "parts-shorter", "track %d: parts decode to %d units but complete segments to %d", ts.id, len(pd), len(sd))
-				return
-			}
-		}
 	}
 }
 
